@@ -16,7 +16,68 @@ import (
 // error means shape mismatch (the model refuses; the library must return an
 // error too).
 func Assign(dst reflect.Value, v model.V) error {
-	return assign(dst, v, "$", 0)
+	_, err := AssignTrack(dst, v)
+	return err
+}
+
+// AssignTrack is Assign and additionally reports whether some number did not
+// fit its target kind (the statement only speaks about values that fit; the
+// result is then not compared).
+func AssignTrack(dst reflect.Value, v model.V) (lossy bool, err error) {
+	lossyFlag = false
+	err = assign(dst, v, "$", 0)
+	return lossyFlag, err
+}
+
+var lossyFlag bool
+
+func noteFit(dst reflect.Value, v model.V) {
+	switch v.K {
+	case model.VInt:
+		switch dst.Kind() {
+		case reflect.Int, reflect.Int8, reflect.Int16, reflect.Int32, reflect.Int64:
+			if !v.N.IsInt64() || dst.OverflowInt(v.N.Int64()) {
+				lossyFlag = true
+			}
+		case reflect.Uint, reflect.Uint8, reflect.Uint16, reflect.Uint32, reflect.Uint64:
+			if !v.N.IsUint64() || dst.OverflowUint(v.N.Uint64()) {
+				lossyFlag = true
+			}
+		case reflect.Float32:
+			if new(big.Int).Abs(v.N).Cmp(big.NewInt(1<<24)) > 0 {
+				lossyFlag = true
+			}
+		case reflect.Float64:
+			if new(big.Int).Abs(v.N).Cmp(big.NewInt(1<<53)) > 0 {
+				lossyFlag = true
+			}
+		}
+	case model.VFloat:
+		f := v.Float()
+		switch dst.Kind() {
+		case reflect.Float32:
+			if !v.F32 && float64(float32(f)) != f && !math.IsNaN(f) {
+				lossyFlag = true
+			}
+		case reflect.Float64:
+		default:
+			// float into an integer target: fits only if integral and in range
+			if f != math.Trunc(f) || math.IsNaN(f) || math.IsInf(f, 0) || math.Abs(f) >= 1<<63 {
+				lossyFlag = true
+				return
+			}
+			switch dst.Kind() {
+			case reflect.Int, reflect.Int8, reflect.Int16, reflect.Int32, reflect.Int64:
+				if dst.OverflowInt(int64(f)) {
+					lossyFlag = true
+				}
+			default:
+				if f < 0 || dst.OverflowUint(uint64(f)) {
+					lossyFlag = true
+				}
+			}
+		}
+	}
 }
 
 func mismatch(path string, dst reflect.Value, v model.V) error {
@@ -25,6 +86,13 @@ func mismatch(path string, dst reflect.Value, v model.V) error {
 
 func assign(dst reflect.Value, v model.V, path string, depth int) error {
 	if depth > 300 {
+		return nil
+	}
+	if v.K == model.VNull {
+		// null assigns the zero value wherever it is accepted at all (whether a
+		// null is accepted for a container-typed struct field is left open by the
+		// statement; the library refuses it there, which is an error = fine)
+		dst.Set(reflect.Zero(dst.Type()))
 		return nil
 	}
 	switch dst.Kind() {
@@ -66,6 +134,7 @@ func assign(dst reflect.Value, v model.V, path string, depth int) error {
 			return mismatch(path, dst, v)
 		}
 	case reflect.Int, reflect.Int8, reflect.Int16, reflect.Int32, reflect.Int64:
+		noteFit(dst, v)
 		switch v.K {
 		case model.VInt:
 			if v.N.IsInt64() {
@@ -81,6 +150,7 @@ func assign(dst reflect.Value, v model.V, path string, depth int) error {
 			return mismatch(path, dst, v)
 		}
 	case reflect.Uint, reflect.Uint8, reflect.Uint16, reflect.Uint32, reflect.Uint64:
+		noteFit(dst, v)
 		switch v.K {
 		case model.VInt:
 			if v.N.IsUint64() {
@@ -96,6 +166,7 @@ func assign(dst reflect.Value, v model.V, path string, depth int) error {
 			return mismatch(path, dst, v)
 		}
 	case reflect.Float32, reflect.Float64:
+		noteFit(dst, v)
 		switch v.K {
 		case model.VFloat:
 			dst.SetFloat(v.Float())
